@@ -358,12 +358,12 @@ MUTANTS = [
     M("zuko sample_and_log_prob adds Jacobian", _TF, "xp.asarray(log_prob - log_abs_det_jacobian)", "xp.asarray(log_prob + log_abs_det_jacobian)", "C03.sign"),
     M("zuko sample skips inverse_rescale", _TF, "x = self.inverse_rescale(x_prime)[0]\n        return xp.asarray(x)", "return xp.asarray(x_prime)", "C03.route"),
     M("zuko log_prob evaluated at unscaled point", _TF, "self._flow().log_prob(x_prime) + log_abs_det_jacobian", "self._flow().log_prob(x) + log_abs_det_jacobian", "C03.sign"),
-    M("jax log_prob drops Jacobian", _JF, "return xp.asarray(log_prob + log_abs_det_jacobian)", "return xp.asarray(log_prob)", "C03.sign"),
-    M("jax sample_and_log_prob drops Jacobian", _JF, "return xp.asarray(x), xp.asarray(log_prob - log_abs_det_jacobian)", "return xp.asarray(x), xp.asarray(log_prob)", "C03.sign"),
+    M("jax log_prob drops Jacobian", _JF, "return asarray(log_prob + log_abs_det_jacobian, xp)", "return asarray(log_prob, xp)", "C03.sign"),
+    M("jax sample_and_log_prob drops Jacobian", _JF, "return asarray(x, xp), asarray(log_prob - log_abs_det_jacobian, xp)", "return asarray(x, xp), asarray(log_prob, xp)", "C03.sign"),
     M("jax sample_and_log_prob density of a different draw", _JF, "log_prob = self._flow.log_prob(x_prime)\n        x, log_abs_det_jacobian = self.inverse_rescale(x_prime)",
       "log_prob = self._flow.log_prob(self._flow.sample(self.key, (n_samples,)))\n        x, log_abs_det_jacobian = self.inverse_rescale(x_prime)", "C03.sign"),
     M("rescale routed to inverse", _B, "return self.data_transform.forward(x)", "return self.data_transform.inverse(x)", "C03.route"),
-    M("jax forward drops rescale Jacobian", _JF, "log_abs_det_jacobian + log_abs_det_jacobian_flow\n        )\n\n    def inverse", "log_abs_det_jacobian_flow\n        )\n\n    def inverse", "C03.map"),
+    M("jax forward drops rescale Jacobian", _JF, "log_abs_det_jacobian + log_abs_det_jacobian_flow, xp\n        )\n\n    def inverse", "log_abs_det_jacobian_flow, xp\n        )\n\n    def inverse", "C03.map"),
     M("zuko inverse subtracts flow Jacobian", _TF, "xp.asarray(log_j_rescale + log_abs_det_jacobian)", "xp.asarray(log_j_rescale - log_abs_det_jacobian)", "C03.map"),
     M("init_flow ignores bounded_transform", _A, "bounded_transform=self.bounded_transform,\n            device=self.device,\n            xp=xp,", "device=self.device,\n            xp=xp,", "C03.attach"),
     M("init_flow does not pass the transform", _A, "data_transform=data_transform,\n            dtype=self.dtype,", "dtype=self.dtype,", "C03.attach"),
@@ -391,7 +391,7 @@ MUTANTS += [
 ]
 NEUTRALS = [
     M("zuko log_prob operand order", _TF, "self._flow().log_prob(x_prime) + log_abs_det_jacobian", "log_abs_det_jacobian + self._flow().log_prob(x_prime)"),
-    M("jax sample_and_log_prob via temporary", _JF, "return xp.asarray(x), xp.asarray(log_prob - log_abs_det_jacobian)", "log_q = log_prob - log_abs_det_jacobian\n        return xp.asarray(x), xp.asarray(log_q)"),
+    M("jax sample_and_log_prob via temporary", _JF, "return asarray(x, xp), asarray(log_prob - log_abs_det_jacobian, xp)", "log_q = log_prob - log_abs_det_jacobian\n        return asarray(x, xp), asarray(log_q, xp)"),
     M("zuko sample unpacks both", _TF, "x = self.inverse_rescale(x_prime)[0]\n        return xp.asarray(x)", "x, _ = self.inverse_rescale(x_prime)\n        return xp.asarray(x)"),
     M("compiled density takes the flow as an argument (nothing closed over)", _JF,
       "**kwargs,\n        )\n\n    def fit", "**kwargs,\n        )\n        self._log_prob_fn = jax.jit(lambda flow, x: flow.log_prob(x))\n\n    def fit"),
